@@ -534,6 +534,9 @@ def run(ctx, rep):
     fin_rules(facts, rep)
     method_rules(ctx, facts, rep)
     mode_rules(ctx, facts, rep)
+    from rules.shared_options import opener_rules, entry_fields_rules
+    opener_rules(facts, rep)           # C01-OPENERS: type bits on every path, caller's options untouched
+    entry_fields_rules(facts, rep)     # C01-ENTRYFIELDS: the pushed record holds the options, unconditionally
     from rules.shared_count import count_rule
     from rules.C03 import search_rules
     count_rule(facts, rep, rule="C01-COUNT", only=r"ZipWriter<W>>::write$|MaybeEncrypted|Crc32Reader")
